@@ -325,7 +325,7 @@ func handleKICK(c *Client, e Event) {
 
 	defer c.state.notify(c, UPDATE_STATE)
 
-	if e.Params[1] == c.GetNick() {
+	if ToRFC1459(e.Params[1]) == c.GetID() {
 		c.state.Lock()
 		c.state.deleteChannel(e.Params[0])
 		c.state.Unlock()
